@@ -838,6 +838,27 @@ def _install(M):
         return _dot(ex, a[0], a[1])
     M.table["numpy.matmul"] = M.table["numpy.dot"]
 
+    @reg("numpy.tensordot")
+    def _tensordot(ex, a, k, l):
+        """numpy.tensordot(A, B) with the default axes=2: contraction of the last two axes of A with the first two of B"""
+        from . import sums
+        A, B = a[0], a[1]
+        axes = k.get("axes", a[2] if len(a) > 2 else 2)
+        if axes != 2 or B.rank < 2 or A.rank < 2:
+            raise Unsupported("numpy.tensordot with axes=%r" % (axes,))
+        sa, sb = A.snapshot(), B.snapshot()
+        shape = tuple(A.shape[:-2]) + tuple(B.shape[2:])
+        dt = "cx" if "cx" in (A.dtype, B.dtype) else "real"
+        na = A.rank - 2
+
+        def cell(xs):
+            ia, ib = list(xs[:na]), list(xs[na:])
+            return sums.mk_sum(ex, A.shape[-2], lambda c: sums.mk_sum(
+                ex, A.shape[-1], lambda d: arith("*", sa.get(ia + [c, d]), sb.get([c, d] + ib))))
+        if not shape:
+            return cell([])
+        return lam_array(shape, dt, cell, name="tensordot")
+
     @reg("numpy.transpose")
     def _ntr(ex, a, k, l):
         return _transpose(ex, a[0])
